@@ -155,3 +155,36 @@ Section ChainId.
     destruct (CallRPC backend _ _) as [[v|[]] fr]; cbn [fst] in Hf; [discriminate|reflexivity].
   Qed.
 End ChainId.
+
+(* the canonical request object *)
+Definition request_tree (ver : bytes) (id : json) (m : bytes) (ps : list json) : json :=
+  JObj [(bs "jsonrpc", JStr ver); (bs "id", id); (bs "method", JStr m); (bs "params", JArr ps)].
+
+Lemma decode_request_tree ver id m ps :
+  decode_request (request_tree ver id m ps) = Ok (mkReq ver (dec_anyptr id) m ps).
+Proof. reflexivity. Qed.
+
+Section E2E.
+  Variable parse_int : bytes -> option Z.
+  Variable lex : bytes -> option json.
+  Variable accounts : list bytes.
+  Variable sign_with : bytes -> transaction -> Z -> res bytes.
+  Variable backend : frame -> backend_reply.
+  Variable chain : Z.
+
+  (* C09_passthrough from the bytes on the wire to the frame at the backend *)
+  Theorem passthrough_end_to_end body order ver id m ps :
+    (b2n (sniffFirstByte body) =? 91)%N = false ->
+    lex body = Some (request_tree ver id m ps) -> id <> JNull -> special_method m = false ->
+    exists status tree,
+      rpcHandler parse_int lex accounts sign_with backend chain body order = Ok (status, tree, [[mkFrame m ps]]) /\
+      tree_member (bs "id") tree = Some id.
+  Proof.
+    intros Hs Hl Hid Hm.
+    assert (Hi : dec_anyptr id = Some id) by (destruct id; try reflexivity; congruence).
+    set (rq := mkReq ver (dec_anyptr id) m ps).
+    destruct (passthrough_spec parse_int accounts sign_with backend chain rq id Hi Hm) as (resp & err & E & I & _).
+    rewrite (handler_single parse_int lex accounts sign_with backend chain body order _ rq (Some resp) err _ Hs Hl (decode_request_tree ver id m ps) E).
+    do 2 eexists. split; [reflexivity|]. cbn [response_opt_tree]. rewrite response_tree_id, I. reflexivity.
+  Qed.
+End E2E.
